@@ -1,6 +1,6 @@
 CONSTANTS Ids = {1, 2, 3}
           ReqBytes = {0, 64, 128}
-          MaxBrk = 30
+          MaxBrk = 22
 SPECIFICATION Spec
 CONSTRAINT BrkBound
-INVARIANTS Tiling FreeListShape AllFreedRestores Aligned
+INVARIANTS Tiling FreeListShape AllFreedRestores
